@@ -25,6 +25,8 @@ pub enum C01Case {
     Op(C01Op),
     /// the per-word-type primitives and the word re-chunking, through the `verif-hooks` re-export
     Prim(super::prim::PrimCase),
+    /// the same operators on `Bvf<u8,320>` (more than 255 one-byte words in use), outside the zoo
+    Wide(super::wide::WideCase),
 }
 
 pub struct C01;
@@ -156,7 +158,7 @@ impl Property for C01 {
         "C01"
     }
     fn rule(&self) -> String {
-        "Cases: (LHS operand any zoo type/length/provenance, RHS vector of any type/length/provenance or native integer, op in {+,-,*}, one of 6 forms). Enumerated: all (n,a,m,b) n,m<=4 (quick)/<=6 (thorough) x 20x20 pairings x 3 ops; all (n,a) x integer lattice x 20 x 6 native types; word-pattern lattice {0,1,MAX-1,MAX,MSB,MSB-1}^words for both operands at lengths {kw-1,kw,kw+1,C} on every multi-word type (RHS same type and Bvd / Bvf<u8,17>), all 2^16 value pairs of Bvf<u8,1> at n=m=8; thorough adds 3-word lattices and all values of Bvf<u8,2> x {Bvf<u8,2>,Bvd} for n<=11. Also (through the verif-hooks re-export) the word primitives cadd/csub/wmul/mask of all six word types on an integer lattice squared (u8 exhaustively) and the slice re-chunking get_int/set_int for all 36 word-type pairs. Random: proptest with related pairs (b = a, a+-1, 2^n-a, one bit flipped). Oracle: BigUint/u128 (val a op val b) mod 2^n + observer battery. Non-trivial: n>0, both values non-zero and (the true result wrapped: >= 2^n or < 0; or a carry/borrow crossed a storage-word boundary of the LHS; or for * both operands have >= 2 non-zero words). Distinct by hash of the whole case.".into()
+        "Cases: (LHS operand any zoo type/length/provenance, RHS vector of any type/length/provenance or native integer, op in {+,-,*}, one of 6 forms). Enumerated: all (n,a,m,b) n,m<=4 (quick)/<=6 (thorough) x 20x20 pairings x 3 ops; all (n,a) x integer lattice x 20 x 6 native types; word-pattern lattice {0,1,MAX-1,MAX,MSB,MSB-1}^words for both operands at lengths {kw-1,kw,kw+1,C} on every multi-word type (RHS same type and Bvd / Bvf<u8,17>), all 2^16 value pairs of Bvf<u8,1> at n=m=8; thorough adds 3-word lattices and all values of Bvf<u8,2> x {Bvf<u8,2>,Bvd} for n<=11. Long vectors: the 2560-bit and 70 400-bit fixed types and Bvd/Bv at 1024..8193 bits against several operand types; every length 321..2600 (thorough 8300); a geometric ladder of lengths around every power of two from 2^14 to 2^21 (thorough 2^24) bits for + and - (* up to 2^19). Also Bvf<u8,320> (2560 bits in one-byte words, outside the zoo) as left operand against {itself,Bvd,Bv,Bvf<u32,80>} and as right operand of Bvd, lengths 2040..2560, dense value patterns (non-trivial there: both operands have more than 256 non-zero bytes). Also (through the verif-hooks re-export) the word primitives cadd/csub/wmul/mask of all six word types on an integer lattice squared (u8 exhaustively) and the slice re-chunking get_int/set_int for all 36 word-type pairs. Random: proptest with related pairs (b = a, a+-1, 2^n-a, one bit flipped). Oracle: BigUint/u128 (val a op val b) mod 2^n + observer battery. Non-trivial: n>0, both values non-zero and (the true result wrapped: >= 2^n or < 0; or a carry/borrow crossed a storage-word boundary of the LHS; or for * both operands have >= 2 non-zero words). Distinct by hash of the whole case.".into()
     }
     fn random_cases(&self, tier: Tier) -> u64 {
         tier.pick(300000, 12800000)
@@ -179,7 +181,15 @@ impl Property for C01 {
         let chunk = (arb_nat_ty(), arb_nat_ty(), proptest::collection::vec(any::<u128>(), 0..6), 0usize..12, any::<u128>()).prop_map(|(src, dst, ws, idx, val)| {
             C01Case::Prim(PrimCase::Chunk { src, dst, words: ws.into_iter().map(|w| Nat::new(NatTy::U128, w)).collect(), idx, val: Nat::new(NatTy::U128, val) })
         });
-        prop_oneof![9 => vec_case, 3 => nat_case, 2 => word, 1 => chunk].boxed()
+        use super::wide::{wide_value, WideCase, WideTy, WIDE_RHS};
+        let wide = (0usize..=520, 0u8..6, 0u8..6, any::<u64>(), 0usize..5, 0usize..4, 0usize..3, any::<bool>(), any::<bool>()).prop_map(|(dn, asel, bsel, seed, msel, rt, o, assign, dyn_left)| {
+            let n = 2560 - dn;
+            let rhs = if dyn_left { WideTy::W8 } else { WIDE_RHS[rt] };
+            let m = [n, n, n.saturating_sub(9), n / 2 + 3, 2560][msel].min(rhs.cap());
+            let (lhs, n) = if dyn_left { (WideTy::D, n + (seed % 700) as usize) } else { (WideTy::W8, n) };
+            C01Case::Wide(WideCase { lhs, a: wide_value(n, asel, seed), rhs, b: wide_value(m, bsel, seed ^ 0x55), op: ARITH[o], assign })
+        });
+        prop_oneof![36 => vec_case, 12 => nat_case, 8 => word, 4 => chunk, 1 => wide].boxed()
     }
     fn exhaustive_subspaces(&self, tier: Tier) -> Vec<String> {
         let k = tier.pick(4, 6);
@@ -187,6 +197,7 @@ impl Property for C01 {
             format!("all values of both operands for all lengths n,m<={} x 20x20 type pairings x {{+,-,*}} (form rotates)", k),
             format!("all values for n<={} x integer lattice x 20 LHS types x 6 native RHS types x {{+,-,*}}", k),
             "all 2^16 value pairs of Bvf<u8,1> at n=m=8 x {+,-,*}".into(),
+            "Bvf<u8,320> (over 255 one-byte words in use) as left operand at lengths {2057,2064,2088,2400,2559,2560} (thorough: 14 lengths from 2041) x 6 value patterns x 9 right operands x {Bvf<u8,320>,Bvd,Bv,Bvf<u32,80>} x {+,-,*}, and Bvd op Bvf<u8,320>".into(),
             "primitives (verif-hooks): u8::cadd/csub for all 2^16 operand pairs x carry in {0,1,2,255}, u8::wmul for all pairs; mask(l) for every l in 0..=2w+1 on all six word types; word re-chunking get_int/set_int for all 36 (array word, chunk word) type pairs x arrays of 0..4 words x every index".into(),
         ];
         if tier == Tier::Thorough {
@@ -202,8 +213,8 @@ impl Property for C01 {
             f(C01Case::Op(C01Op { a: Operand::canon(lt, a.clone()), b, op, form: FORMS[rot % 6] }))
         };
         // (i) complete small scope, vector RHS
-        for lt in 0..NT {
-            for rt in 0..NT {
+        for lt in ROUTINE_TIDS {
+            for rt in ROUTINE_TIDS {
                 if !sh.mine() {
                     continue;
                 }
@@ -221,7 +232,7 @@ impl Property for C01 {
                                             if pa == Prov::Canon && pb == Prov::Canon {
                                                 continue;
                                             }
-                                            let c = C01Case::Op(C01Op { a: Operand { ty: lt, bits: a.clone(), prov: pa.clone() }, b: Rhs::V(Operand { ty: rt, bits: b.clone(), prov: pb }), op, form: FORMS[(n + m) % 6] });
+                                            let c = C01Case::Op(C01Op { a: Operand::fitted(lt, a.clone(), pa.clone()), b: Rhs::V(Operand::fitted(rt, b.clone(), pb)), op, form: FORMS[(n + m) % 6] });
                                             if !f(c) {
                                                 return;
                                             }
@@ -235,7 +246,7 @@ impl Property for C01 {
             }
         }
         // (ii) native RHS over the integer lattice
-        for lt in 0..NT {
+        for lt in ROUTINE_TIDS {
             for nty in NAT_TYS {
                 if !sh.mine() {
                     continue;
@@ -268,7 +279,7 @@ impl Property for C01 {
             }
         }
         // (iii) word-pattern lattice on every multi-word type
-        for lt in 0..NT {
+        for lt in ROUTINE_TIDS {
             let w = WORD_BITS[lt as usize];
             let nwords_l = if is_fixed(lt) { NWORDS[lt as usize] } else { 3 };
             if nwords_l < 2 {
@@ -312,7 +323,7 @@ impl Property for C01 {
         }
         // (iii-b) a op a with both operands the same value AND type (the check then also runs the
         // aliased form &a op &a), word patterns over up to 9 words
-        for lt in 0..NT {
+        for lt in ROUTINE_TIDS {
             if !sh.mine() {
                 continue;
             }
@@ -374,6 +385,56 @@ impl Property for C01 {
                     }
                 }
             }
+        }
+        // (iii-c2) the 70 400-bit fixed type at and near its capacity and around 2^16 bits
+        for (lt, rt) in [(TID_HUGE, TID_HUGE), (TID_HUGE, TID_D), (TID_HUGE, TID_A), (TID_D, TID_HUGE), (TID_A, TID_HUGE), (TID_HUGE, 18u8), (18u8, TID_HUGE)] {
+            if !sh.mine() {
+                continue;
+            }
+            let lc = fixed_cap(lt).unwrap_or(usize::MAX);
+            let rc = fixed_cap(rt).unwrap_or(usize::MAX);
+            for n in [4097usize, 65535, 65537, 70399, 70400] {
+                let n = n.min(lc);
+                for m in [n, n / 2 + 7, 64usize] {
+                    let m = m.min(rc);
+                    for (a, b) in [(Bits::ones(n), Bits::ones(m)), (long_values(n)[1].clone(), long_values(m)[1].clone()), (long_values(n)[5].clone(), Bits::from_u128(3, m))] {
+                        for op in ARITH {
+                            if !emit(lt, &a, Rhs::V(Operand::canon(rt, b.clone())), op, f) {
+                                return;
+                            }
+                        }
+                    }
+                }
+            }
+        }
+        // (iii-c3) geometric ladder of lengths up to megabits on the unbounded types: + and - at
+        // every rung, * up to 2^19 bits (schoolbook multiplication is quadratic)
+        for (t, n) in ladder_lengths(tier) {
+            if !sh.mine() {
+                continue;
+            }
+            let other = if t == TID_D { TID_A } else { TID_D };
+            if !emit(t, &Bits::ones(n), Rhs::N(Nat::new(NatTy::U8, 1)), BinOp::Add, f) {
+                return;
+            }
+            if !emit(t, &Bits::zeros(n), Rhs::V(Operand::canon(other, Bits::from_u128(1, 70))), BinOp::Sub, f) {
+                return;
+            }
+            if !emit(t, &dense_value(n), Rhs::V(Operand::canon(other, dense_value(n - 5))), if n % 2 == 0 { BinOp::Add } else { BinOp::Sub }, f) {
+                return;
+            }
+            if n <= (1 << 19) + 5000 {
+                if !emit(t, &dense_value(n), Rhs::V(Operand::canon(other, dense_value(n / 2 + 1))), BinOp::Mul, f) {
+                    return;
+                }
+                if !emit(t, &Bits::ones(n), Rhs::V(Operand::canon(t, Bits::ones(n))), BinOp::Mul, f) {
+                    return;
+                }
+            }
+        }
+        // (iii-d) more than 255 one-byte words in use: Bvf<u8,320>, outside the zoo
+        if !super::wide::enumerate_wide(&ARITH, tier == Tier::Thorough, sh, &mut |c| f(C01Case::Wide(c))) {
+            return;
         }
         // (iv) all value pairs of Bvf<u8,1> at full width (the u8 primitives, exhaustively)
         for av in 0u32..256 {
@@ -486,6 +547,14 @@ impl Property for C01 {
     fn check(&self, case: &C01Case, st: &mut Stats) -> CheckResult {
         let C01Op { a, b, op, form } = match case {
             C01Case::Op(o) => o,
+            C01Case::Wide(w) => {
+                ensure!(ARITH.contains(&w.op), "bad-case", "C01 wide case with non-arithmetic operator");
+                super::wide::check_wide(w)?;
+                st.class("Bvf<u8,320>: over 255 one-byte words");
+                st.class(&format!("wide op:{}", op_name(w.op)));
+                st.note(case, super::wide::wide_nontrivial(w));
+                return Ok(());
+            }
             C01Case::Prim(p) => {
                 super::prim::check_prim(p)?;
                 let (cls, nt) = match p {
